@@ -33,6 +33,8 @@ class Parser(Emitter):
             if self.debug:
                 traceback.print_exc()
             error = self._error_code(e)
+        finally:
+            formulaserror.clear_tracebacks()
 
         if isinstance(result, formulaserror.XLError):
             error = self._error_code(result)
